@@ -1,5 +1,7 @@
 """Replace escape sequences with their Unicode equivalents."""
 
+import re
+
 from .exceptions import LiquidSyntaxError
 from .token import TokenT
 
@@ -59,6 +61,39 @@ def quote_string(value: str) -> str:
     """Return _value_ as a quoted Liquid string literal."""
     quote = '"' if "'" in value and '"' not in value else "'"
     return f"{quote}{escape(value, quote)}{quote}"
+
+
+_RE_WORD = re.compile(r"[\u0080-\uFFFFa-zA-Z_][\u0080-\uFFFFa-zA-Z0-9_-]*")
+
+_KEYWORDS = frozenset(
+    [
+        "true",
+        "false",
+        "and",
+        "or",
+        "in",
+        "not",
+        "contains",
+        "nil",
+        "null",
+        "if",
+        "else",
+        "with",
+        "required",
+        "as",
+        "for",
+    ]
+)
+
+
+def quote_identifier(name: str) -> str:
+    """Return _name_ as it is written for a tag that accepts a word or a string.
+
+    A name that is not a single word (or is a keyword) must be a quoted string.
+    """
+    if _RE_WORD.fullmatch(name) and name not in _KEYWORDS:
+        return name
+    return quote_string(name)
 
 
 def _decode_escape_sequence(  # noqa: PLR0911
